@@ -332,12 +332,21 @@ func runScn(s scn, rawScn json.RawMessage, pk *hlib.PKI, certs []tls.Certificate
 	}
 	tls.VerifSetOverride(scfg, sov)
 	// hook H1: Hello.Raw right after the internal BuildHandshakeState of Handshake
+	var uref *tls.UConn
 	tls.VerifSetOverride(ccfg, &tls.VerifOverride{Emit: func(ev string, data []byte) {
 		if ev == "hello_rebuilt" {
 			m := map[string]any{"ev": "Rebuilt", "raw": hlib.Ints(data)}
 			bytesOf(m, data)
 			emit(m)
 		}
+	}, Outgoing: func(c *tls.Conn, d []byte) []byte {
+		// hook H2 on the client: a ClientHello message is about to be written; what does Hello.Raw hold right now?
+		if len(d) > 0 && d[0] == 1 && uref != nil && uref.HandshakeState.Hello != nil {
+			m := map[string]any{"ev": "AtSend"}
+			bytesOf(m, uref.HandshakeState.Hello.Raw)
+			emit(m)
+		}
+		return d
 	}})
 	if s.Sess {
 		// an earlier, unedited connection of the same kind to the same server leaves its session ticket in the cache
@@ -386,6 +395,7 @@ func runScn(s scn, rawScn json.RawMessage, pk *hlib.PKI, certs []tls.Certificate
 			}
 		},
 		Prep: func(u *tls.UConn) error {
+			uref = u
 			for i := range s.Ops {
 				o := &s.Ops[i]
 				var obs map[string]any
@@ -423,8 +433,9 @@ func runScn(s scn, rawScn json.RawMessage, pk *hlib.PKI, certs []tls.Certificate
 }
 
 // build: {"scenarios":[scn...], "full": bool} -> per scenario, chronologically: Scn (echo of the scenario + chosen HRR group),
-// Call i (each public call: error, Hello.Raw and the hello fields after it), Rebuilt (hook H1), Rec k (client
-// handshake records as written), SH (server hellos as sent), Done (errors, Hello.Raw after Handshake).
+// Call i (each public call: error, Hello.Raw and the hello fields after it), Rebuilt (hook H1), AtSend (Hello.Raw at
+// the moment a ClientHello message is handed to the record layer), Rec k (client handshake records as written),
+// SH (server hellos as sent), Done (errors, Hello.Raw after Handshake).
 func init() {
 	hlib.Register("build", func(in []byte, out *hlib.Out) error {
 		var req struct {
